@@ -357,6 +357,9 @@ func TestC16(t *testing.T) {
 	defer r.Flush()
 	r.Rule("PRNG polling/JSONP sessions: revision x b64 x Accept-Encoding (each coding, lists, q-values, identity, *, look-alike tokens, codings spelled in other cases) x threshold x arbitrary j strings x batches of hostile text (quotes, backslashes, CR/LF, U+2028/2029, </script>, <!--) and binary packets with per-packet compress options; every raw poll response recorded by the wrapping handler is decoded (content coding as RFC 9110, JSONP by a strict JS-string scanner, payload by the reference codec) and matched against the batches of the flush events (packet identity from packetCreate); headers checked against body; distinct = configuration/batch-shape signature")
 	r.Assume("a response may stay uncompressed even when compression would be allowed: the statement only restricts when a coding may be applied")
+	// a case that has not ended after a minute of real time (normal: milliseconds) is examined for a
+	// goroutine spinning in library code (rep.Guard)
+	r.Guard(60 * time.Second)
 	n := r.N(2400, 200000)
 	for i := 0; i < n; i++ {
 		if !r.Only(i) {
@@ -373,7 +376,9 @@ func TestC16(t *testing.T) {
 			}
 		}
 		c.Seed = fmt.Sprintf("seed=%d lane=%d case=%d", r.Seed, r.Lane, i)
+		r.Begin(fmt.Sprint(i), c)
 		key, msg, stats := runC16(c, rng, r)
+		r.End(fmt.Sprint(i))
 		shape := ""
 		for _, b := range c.Batches {
 			for _, m := range b {
